@@ -108,3 +108,20 @@ package p2pmux
 //@   pure
 //@   ensures ret1 == nil ==> ret0 != nil && inv(ret0.tellHub) && inv(ret0.askHub)
 //@   ensures ret1 != nil ==> ret0 == nil
+//@
+//@ // MTU is honest: what a channel advertises plus the header its multiplexer puts in front of every
+//@ // payload of this channel is what the underlying swarm accepts.
+//@ func (*muxedSwarm).MTU
+//@   noframe
+//@   requires ms != nil && ms.m != nil
+//@   ghostvar inner = 0
+//@   ghostvar hdr = 0 - 1
+//@   ensures [honest] ghost(hdr) >= 0 && ret == ghost(inner) - ghost(hdr)
+//@   after call MTU:
+//@     set inner = res0
+//@   before call muxFunc:
+//@     assert [thischannel] arg0 == ms.cid && len(arg1) == 0
+//@   after call muxFunc:
+//@     set hdr = sumlen(lens(res0), len(res0))
+//@   fnspec muxFunc:
+//@     pure
